@@ -820,6 +820,14 @@ def value_forms(node):
     if t in INT_TAGS:
         f += [('int:empty', b''), ('int:negative', b'\x80'), ('int:negative', b'\xff' + v), ('int:zero-padded', b'\x00' + v), ('int:zero-padded', b'\x00\x00'),
               ('int:negative', bytes([v[0] | 0x80]) + v[1:] if v else b'\xff')]
+    # a well-formed value LONGER than any destination field of the decoded structure (one octet, twice, 400 and 1000 octets):
+    # a decoder that copies before it checks the length writes outside its output
+    if t in INT_TAGS and len(v) < 400:
+        f += [('size:int-longer', b'\x01' + v), ('size:int-longer', b'\x01' + v + v), ('size:int-longer', b'\x01' * 400), ('size:int-longer', b'\x01' * 1000)]
+    if t == b'\x04' and len(v) < 400:
+        f += [('size:oct-longer', v + b'\x01'), ('size:oct-longer', v + v + b'\x01'), ('size:oct-longer', b'\x01' * 400), ('size:oct-longer', b'\x01' * 1000)]
+    if t == b'\x03' and 2 <= len(v) < 400:
+        f += [('size:bit-longer', v + b'\x00'), ('size:bit-longer', v + v[1:] + b'\x00'), ('size:bit-longer', b'\x00' + b'\x01' * 400), ('size:bit-longer', b'\x00' + b'\x01' * 1000)]
     if t == b'\x06' and v:
         starts = [i for i in range(len(v)) if i == 0 or not v[i - 1] & 0x80]
         last = starts[-1]
